@@ -8,6 +8,7 @@
   and is not a theorem.
 -/
 import Umya.Thm.C01
+import Umya.Lemmas.ResaveCells
 import Umya.Thm.C12
 import Umya.Lemmas.XmlEsc
 import Umya.Lemmas.TablesGen
@@ -32,17 +33,12 @@ theorem C04_attr_drift_fails :
     readOld (attrWrite (readOld (attrWrite "R&D".toList))) = "R&amp;amp;D".toList := by decide
 
 theorem normalize_idem (F : NumFmt) (sheets : List (List (Cell F.Num))) :
-    normalize F (normalize F sheets) = normalize F sheets := by
-  simp [normalize, List.map_map, Function.comp, List.filter_filter]
+    normalize F (normalize F sheets) = normalize F sheets := normalize_idem' F sheets
 
 theorem normalize_ok (F : NumFmt) (sheets : List (List (Cell F.Num)))
     (h : ∀ s ∈ sheets, ∀ c ∈ s, cellOK F c = true) :
-    ∀ s ∈ normalize F sheets, ∀ c ∈ s, cellOK F c = true := by
-  intro s hs c hc
-  simp only [normalize, List.mem_map] at hs
-  obtain ⟨s0, hs0, e⟩ := hs
-  subst e
-  exact h s0 hs0 c (List.mem_filter.1 hc).1
+    ∀ s ∈ normalize F sheets, ∀ c ∈ s, cellOK F c = true :=
+  normalize_cellOK F sheets h
 
 /-- Cells: the first re-save shows the original's non-blank cells, and the second generation is a
     fixed point — re-saving what was loaded loads as exactly the same cells again (any number of
@@ -70,7 +66,8 @@ theorem C04_save_pure (heap : List Umya.Sst.BookS) (w : Nat) :
 theorem C04_edit_local (F : NumFmt) (sheets : List (List (Cell F.Num))) (i j : Nat) (c' : Cell F.Num)
     (s : List (Cell F.Num)) (hs : sheets[i]? = some s) :
     (∀ i', i' ≠ i → (normalize F (sheets.set i (s.set j c')))[i']? = (normalize F sheets)[i']?) ∧
-    (normalize F (sheets.set i (s.set j c')))[i]? = some ((s.set j c').filter (fun c => !blankUnstyled F c)) := by
+    (normalize F (sheets.set i (s.set j c')))[i]?
+      = some (((s.set j c').filter (fun c => !blankUnstyled F c)).map (Cell.resolved F)) := by
   constructor
   · intro i' hne
     simp only [normalize, List.getElem?_map, List.getElem?_set]
